@@ -1,7 +1,7 @@
 (* Model/C02Run.v - case type and checker evaluated on harness-generated cases (C02).
    One case = one exchange of the REAL client (req.C().R()...) with a scripted peer; the
    observation is what the caller saw through the public API. *)
-From ReqV Require Export Lib.Bytes Lib.ByteLit Model.H1Resp Model.RespAPI Model.H1Client Model.MuxResp Model.H1Fast.
+From ReqV Require Export Lib.Bytes Lib.ByteLit Model.H1Resp Model.RespAPI Model.H1Client Model.MuxResp Model.H1Fast Model.ConnWindow.
 
 (* Go maps are unordered: compare as multimaps key by key *)
 Definition hmap_eqb (a b : hmap) : bool :=
@@ -172,6 +172,10 @@ Inductive c02_case :=
    SetOutputFile): the files present before, the steps (file name as given, status, body), the
    content of every file after each step *)
 | FileCase (dir : bytes) (pre : store) (steps : list (bytes * Z * bytes)) (obs : list store)
+(* the connection-level receive window across the exchanges of one HTTP/2 connection: the
+   window the peer saw at the start, what the exchanges did (DATA frames, reads, closes with
+   unread bytes), the window the peer sees at the final quiescent point *)
+| WinCase (w : Z) (ops : list cop) (peer_view : Z)
 (* Response API cell (any protocol): status, the body the transport delivers, the request /
    client configuration, the caller's operations; observed: call error, output writer
    contents, download callback values, bytes handed to the unmarshaller by SetSuccessResult,
@@ -261,6 +265,12 @@ Definition c02_check (c : c02_case) : bool :=
             mux_matches ref (h2_exchange_after is_head hs (frames_of_evs evs) trailers [] m sizes)
                         o_noresp o_code o_header o_cl o_trailer o
         end) (combine (map N.of_nat (seq 0 (length members))) members)
+  | WinCase w ops peer_view =>
+      quiescent_ok w peer_view &&
+      match cw_run (cw_init w) ops with
+      | Some (s, _) => (cw_buf s =? 0)%Z && quiescent_ok w (cw_avail s)
+      | None => false
+      end
   | FileCase dir pre steps obs => list_eqb store_eqb (download_all pre dir steps) obs
   | ApiCase code body has_body disable save cap cb result tf ops o_err o_out o_cbs o_unm o_outs =>
       let bd := if has_body then expand_body body else [] in
